@@ -4,7 +4,15 @@ CONSTANTS
   MaxTargets = 1
   MaxCorr = 1
   CorrKinds = {"sigOtherKey", "sigFlip", "sigSwap", "msgFlipKey", "msgFlipOther", "keySubst", "tweakFlip", "tweakRemove", "tweakAdd", "reparent", "wrongRoot"}
+  Shapes = {"longTail", "longHead"}
+  MaxShape = 1
+  ShapeWithCorr = FALSE
   TweakChoice = {"plain", "tweaked"}
 INVARIANT Agree
+INVARIANT AgreeJudge
+INVARIANT LoadIffWellFormed
+INVARIANT Bounded
+INVARIANT BudgetOk
+PROPERTY Stable
 INVARIANT EmitB
 CHECK_DEADLOCK FALSE
